@@ -121,14 +121,14 @@ fn part_objects(cx: &mut Ctx, journal: &Journal) {
 	let mut chains: Vec<Chain> = Vec::new();
 	// one layer, all kinds
 	for_each_product(&[KINDS_ALL.len(), KINDS_ALL.len()], |_, c| {
-		chains.push(Chain { nnames: 2, dup_last: 0, mask_after: None, layers: vec![LayerD { kinds: vec![KINDS_ALL[c[0]], KINDS_ALL[c[1]]], assert_kind: 0, ext: false, mask_before: None }] });
+		chains.push(Chain { nnames: 2, dup_last: 0, mask_after: None, layers: vec![LayerD { kinds: vec![KINDS_ALL[c[0]], KINDS_ALL[c[1]]], assert_kind: 0, ext: false, mask_before: None, mask_self: None }] });
 	});
 	for_each_product(&[k, k, k, k, 2], |_, c| {
 		chains.push(Chain {
 			nnames: 2,
 			dup_last: 0,
 			mask_after: None,
-			layers: (0..2).map(|li| LayerD { kinds: vec![kinds[c[li * 2]], kinds[c[li * 2 + 1]]], assert_kind: 0, ext: li == 1 && c[4] == 1, mask_before: None }).collect(),
+			layers: (0..2).map(|li| LayerD { kinds: vec![kinds[c[li * 2]], kinds[c[li * 2 + 1]]], assert_kind: 0, ext: li == 1 && c[4] == 1, mask_before: None, mask_self: None }).collect(),
 		});
 	});
 	// objects that already went through std.objectRemoveKey between / after their layers
@@ -143,7 +143,7 @@ fn part_objects(cx: &mut Ctx, journal: &Journal) {
 			nnames: 2,
 			dup_last: 0,
 			mask_after,
-			layers: (0..2).map(|li| LayerD { kinds: vec![mk[c[li * 2]], mk[c[li * 2 + 1]]], assert_kind: 0, ext: false, mask_before: if li == 1 { mask_before } else { None } }).collect(),
+			layers: (0..2).map(|li| LayerD { kinds: vec![mk[c[li * 2]], mk[c[li * 2 + 1]]], assert_kind: 0, ext: false, mask_before: if li == 1 { mask_before } else { None }, mask_self: None }).collect(),
 		});
 	});
 	for ch in &chains {
